@@ -42,8 +42,8 @@ ASSUME = [
     "FNode identity = structural equality (hash-consing, C04) - the DAG printer's memo is keyed by term equality in the model",
     "annotations are not modelled (printers are created without annotations by to_smtlib/serialize)",
     "array index sorts are first-order in Sem.v",
-    "tree and DAG soundness theorems: every operator except Pow; string constants printable ASCII without backslash; array values assigned at pairwise distinct Bool/Int/BV/String constants; the arguments of Iff / extract / rotate / extend lie in C01's fragment okt (proofs/SimplifierSemBase_proofs.v: okt_sound gives the sort of their value)",
-    "script_wellformed: proved for both printers (C07_script_wellformed_partial, closed under the global context) under explicit side conditions: sort/symbol names read back and are pairwise distinct, the sorts of the free symbols read back over the declared sorts, the formula is Bool-typed, in wfp over the signature the declarations build and satisfies srt (no function-sorted term, ordered extract indices, array-value sorts read back); that the repaired TypesOracle reports EVERY custom sort the formula uses is a hypothesis of that theorem (sorts must read back over script_sig t), checked on every correspondence case (incl. the 240 SORT-SHAPE scripts) by evaluating std_script_ok inside Coq",
+    "tree and DAG soundness theorems: every operator except Pow; string constants printable ASCII without backslash; array values assigned at pairwise distinct Bool/Int/Real/BV/String constants (Real in lowest terms); the arguments of Iff / extract / rotate / extend lie in C01's fragment okt (proofs/SimplifierSemBase_proofs.v: okt_sound gives the sort of their value)",
+    "script_wellformed: C07_script_wellformed, both printers, closed under the global context; TypesOracle completeness (every custom sort to be read is reported, hence declared: C07_needed_sorts_read_back, via C12's get_types_def) discharges the sort-readback hypotheses; remaining side conditions: logic/sort/symbol names read back and are pairwise distinct, function symbols have parameters, sorts well-formed (positive widths, no function sort inside), formula Bool-typed, per-node conditions of wfp and srt",
 ]
 
 THEORY_NAMES = set(smtread.THEORY) | {"true", "false"}
